@@ -1,4 +1,5 @@
 import Op2Proofs.SliceNesting
+import Op2Proofs.TypedReads
 /-!
 # C12 — readers deliver exactly the addressed bytes and fail atomically at bounds
 
@@ -135,5 +136,77 @@ theorem C12_prefixed_rejects_unsatisfiable (w esz maxSize cap : Nat) (signed : B
   split
   · exact ⟨_, rfl⟩
   · simp [hbig]
+
+/-! ## `ReadNullTerminatedString(maxCount)`: exactly the NUL-free prefix, terminator consumed, never more than `maxCount` -/
+
+/-- every content, cursor and `maxCount`: the loop over the `MemoryReader` model (u64 guards) delivers what the
+    description `ntSpec` says and leaves the cursor after the consumed bytes; the data ending first is an error -/
+theorem C12_null_terminated (m : Nat) (s : MemR) (h : s.Inv) :
+    readNT MemR.rd m s [] =
+      match ntSpec (s.data.drop s.pos) m with
+      | some (str, n) => .ok (str, { s with pos := s.pos + n })
+      | none => .error .bounds := by
+  rw [readNT_mem m s [] h, readNT_spec m s [] h.1]
+  cases ntSpec (s.data.drop s.pos) m with
+  | none => rfl
+  | some p => obtain ⟨str, n⟩ := p; simp
+
+/-- a terminator within reach: the string is everything before it and the cursor ends just behind it -/
+theorem C12_null_terminated_found (m : Nat) (s : MemR) (h : s.Inv) (str tail : Bytes)
+    (hd : s.data.drop s.pos = str ++ 0 :: tail) (hz : ∀ c ∈ str, c ≠ 0) (hm : str.length < m) :
+    readNT MemR.rd m s [] = .ok (str, { s with pos := s.pos + str.length + 1 }) := by
+  rw [C12_null_terminated m s h, hd]
+  have htw : ((str ++ 0 :: tail).take m).takeWhile (· != 0) = str := by
+    have : (str ++ 0 :: tail).take m = str ++ (0 :: tail).take (m - str.length) := by
+      rw [List.take_append]; congr 1; exact List.take_of_length_le (by omega)
+    rw [this]
+    obtain ⟨k, hk⟩ : ∃ k, m - str.length = k + 1 := ⟨m - str.length - 1, by omega⟩
+    rw [hk, List.take_succ_cons, List.takeWhile_append_of_pos (by intro c hc; simpa using hz c hc)]
+    simp
+  have hlen : str.length < ((str ++ 0 :: tail).take m).length := by
+    simp only [List.length_take, List.length_append, List.length_cons]; omega
+  unfold ntSpec
+  simp only [htw, hlen, if_true, Nat.add_assoc]
+
+theorem takeWhile_all (p : UInt8 → Bool) : ∀ l : Bytes, (∀ c ∈ l, p c = true) → l.takeWhile p = l
+  | [], _ => rfl
+  | c :: t, h => by
+    simp only [List.takeWhile_cons, h c (by simp), if_true]
+    rw [takeWhile_all p t (fun d hd => h d (by simp [hd]))]
+
+/-- no terminator among the first `maxCount` bytes: exactly `maxCount` bytes, cursor `maxCount` further -/
+theorem C12_null_terminated_maxcount (m : Nat) (s : MemR) (h : s.Inv) (hm : m ≤ s.data.length - s.pos)
+    (hz : ∀ c ∈ (s.data.drop s.pos).take m, c ≠ 0) :
+    readNT MemR.rd m s [] = .ok ((s.data.drop s.pos).take m, { s with pos := s.pos + m }) := by
+  rw [C12_null_terminated m s h]
+  have htw : ((s.data.drop s.pos).take m).takeWhile (· != 0) = (s.data.drop s.pos).take m := by
+    apply takeWhile_all; intro c hc; simpa using hz c hc
+  have hl : m ≤ (s.data.drop s.pos).length := by simp; omega
+  unfold ntSpec
+  simp only [htw, Nat.lt_irrefl, if_false, hl, if_true]
+
+/-- the data ends before a terminator and before `maxCount` characters: an error, never a short string -/
+theorem C12_null_terminated_runs_out (m : Nat) (s : MemR) (h : s.Inv) (hm : s.data.length - s.pos < m)
+    (hz : ∀ c ∈ s.data.drop s.pos, c ≠ 0) :
+    readNT MemR.rd m s [] = .error .bounds := by
+  rw [C12_null_terminated m s h]
+  have ht : (s.data.drop s.pos).take m = s.data.drop s.pos := List.take_of_length_le (by simp; omega)
+  have htw : (s.data.drop s.pos).takeWhile (· != 0) = s.data.drop s.pos := by
+    apply takeWhile_all; intro c hc; simpa using hz c hc
+  have hl : ¬ m ≤ (s.data.drop s.pos).length := by simp; omega
+  unfold ntSpec
+  simp only [ht, htw, Nat.lt_irrefl, if_false, hl]
+
+/-- the executable driver cuts `maxCount` (possibly 2^64-1) at remaining + 1: same answer -/
+theorem C12_null_terminated_fuel_cut (m : Nat) (s : MemR) (h : s.Inv) :
+    readNT MemR.rd m s [] = readNT MemR.rd (min m (s.data.length - s.pos + 1)) s [] := by
+  rw [C12_null_terminated m s h, C12_null_terminated _ s h, ntSpec_fuel_cut]
+  simp
+
+example : readNT MemR.rd 10 { data := [1, 65, 66, 0, 67], pos := 1 } [] = .ok ([65, 66], { data := [1, 65, 66, 0, 67], pos := 4 }) := by
+  rfl
+example : readNT MemR.rd 1 { data := [1, 65, 66, 0, 67], pos := 1 } [] = .ok ([65], { data := [1, 65, 66, 0, 67], pos := 2 }) := by
+  rfl
+example : readNT MemR.rd 9 { data := [1, 65, 66], pos := 1 } [] = .error .bounds := by rfl
 
 end Op2.Props.C12
